@@ -386,6 +386,62 @@ theorem spec_call_never_ret (st : Stmt) (s s' : St) (e : RtErr) (v : Val) :
   rcases hr : Spec.exec st s with ⟨o, s1⟩
   cases o <;> simp
 
+/-- **eval_call_refines_spec** (program level: the CALL NODE; the side conditions `hmath`/`hlog` on the text of the
+    name hold for every name but log / error / debug / math.…; they are not kernel-decidable on literals because
+    `String.toUTF8` / `fromUTF8?` do not reduce, so there is no closed real-tree example — the driver runs check them): evaluating the node `name(args)` whose variable holds
+    the declared function `id`, with the arguments evaluated (`hargs`) and the frame built (`hprep`: scope `fvs`, body
+    `body`): the outcome is that of `callCore (withFreshIs (eval f fvs body))` with an error passed through
+    `wrapCallErr`, and that inner computation IS the reference semantics of `Stmt.call (Stmt.fresh (stmtOf f fvs body))`
+    — a `ret` outcome of the body becomes the normal value of the call (return leaves the innermost function with
+    its value), every other outcome is the body's -/
+theorem eval_call_refines_spec (f sc id fvs : Nat) (n fc body : Node) (t : Ecal.Lex.Tok) (b : Bool) (args : List Val)
+    (s s1 s2 s3 : St)
+    (hn : n.name = "identifier") (ht : n.tok = some t) (hc : n.children = [some fc]) (hfc : fc.name = "funccall")
+    (hmath : ((splitDots t.val).head? == some (Ecal.Lex.str "math")) = false)
+    (hlog : (bytesToString t.val == "log" || bytesToString t.val == "error" || bytesToString t.val == "debug") = false)
+    (hgv : run (getValue sc t.val) s = (.ok (.func id, b), s1))
+    (hargs : run (argsEval (f+1) sc fc) s1 = (.ok args, s2))
+    (hprep : run (framePrefix f sc id args) s2 = (.ok (fvs, body), s3)) :
+    run (eval (f+4) sc n) s =
+      (match run (callCore (withFreshIs (eval f fvs body))) s3 with
+       | (.ok v, s4) => (.ok v, s4)
+       | (.error e, s4) => (.error (wrapCallErr n e), s4)) ∧
+    toOutS (run (callCore (withFreshIs (eval f fvs body))) s3) = Spec.exec (.call (.fresh (stmtOf f fvs body))) s3 := by
+  refine ⟨?_, call_refines_spec f fvs body s3⟩
+  rw [eval_user_call (f+1) sc n fc t hn ht hc hfc hmath hlog]
+  simp only [run_bind, hgv, hargs, run_attempt, runFunction_frame_then_callCore, hprep]
+  rcases hr : run (callCore (withFreshIs (eval f fvs body))) s3 with ⟨r, s4⟩
+  cases r <;> rfl
+
+theorem wrapCallErr_ret (n : Node) (e : Sig) (re : RtErr) (v : Val) (h : wrapCallErr n e = .ret re v) : e = .ret re v := by
+  cases e with
+  | plainErr m =>
+    simp only [wrapCallErr] at h
+    split at h <;> (unfold rtErr at h; split at h <;> cases h)
+  | _ => simpa [wrapCallErr] using h
+
+/-- … and no return signal leaves the call node: `return` never crosses the call it belongs to -/
+theorem eval_call_never_ret (f sc id fvs : Nat) (n fc body : Node) (t : Ecal.Lex.Tok) (b : Bool) (args : List Val)
+    (s s1 s2 s3 s' : St) (re : RtErr) (v : Val)
+    (hn : n.name = "identifier") (ht : n.tok = some t) (hc : n.children = [some fc]) (hfc : fc.name = "funccall")
+    (hmath : ((splitDots t.val).head? == some (Ecal.Lex.str "math")) = false)
+    (hlog : (bytesToString t.val == "log" || bytesToString t.val == "error" || bytesToString t.val == "debug") = false)
+    (hgv : run (getValue sc t.val) s = (.ok (.func id, b), s1))
+    (hargs : run (argsEval (f+1) sc fc) s1 = (.ok args, s2))
+    (hprep : run (framePrefix f sc id args) s2 = (.ok (fvs, body), s3)) :
+    run (eval (f+4) sc n) s ≠ (.error (.ret re v), s') := by
+  rw [(eval_call_refines_spec f sc id fvs n fc body t b args s s1 s2 s3 hn ht hc hfc hmath hlog hgv hargs hprep).1]
+  rcases hr : run (callCore (withFreshIs (eval f fvs body))) s3 with ⟨r, s4⟩
+  cases r with
+  | ok w => simp
+  | error e =>
+    simp only []
+    intro h
+    have h1 : wrapCallErr n e = .ret re v := by injection h with h1 _; injection h1
+    have := wrapCallErr_ret n e re v h1
+    subst this
+    exact return_stops_at_call (withFreshIs (eval f fvs body)) s3 s4 re v hr
+
 /-- **spec_first_listed_clause** (program level, reference-semantics side): in the statement a try node reads as,
     a typed except clause whose type strings are plain literals handles an error `e` EXACTLY when the type of `e`
     is one of the listed texts — it then runs its block in the clause's scope and the statement continues
@@ -423,8 +479,10 @@ theorem spec_bare_clause (g : Nat → Node → Stmt) (f'' sc : Nat) (c st : Node
 
 /-- **spec_refinement_partial** — the PROVED part of "eval refines the reference semantics": `eval_refines_spec`
     under the name that says it is partial. FULL statement not proved: the same with (1) calls inside a program
-    read as `Stmt.call` (today a call node is a leaf of `stmtOf`; `call_refines_spec` is about the function body once
-    its frame exists and is not connected to the call node), (2) the clause shapes that BIND the error (`except e`, `except as e`, `"T" as e`,
+    read as `Stmt.call` BY `stmtOf` (a call node is still a leaf of `stmtOf`, because the function it calls is a value
+    of the state, not of the tree; the connection is made at the node instead: `eval_user_call`,
+    `eval_call_refines_spec`, `eval_call_never_ret` — hypotheses: the variable holds a declared function, arguments
+    and frame were built), (2) the clause shapes that BIND the error (`except e`, `except as e`, `"T" as e`,
     `"T" e`: still `Clauses.opaque`; bare and typed clauses ARE `Clauses.clause` now — `spec_first_listed_clause`,
     `spec_bare_clause`), (3) `for … in` loops (leaves). With
     `stmtOf := leaf ∘ eval` the statement would be `rfl`: its content is exactly the node kinds statements, if,
